@@ -220,6 +220,10 @@ class TiledStridedLayoutAttr(MemRefLayoutAttr, Data[TiledStridedLayout]):
             IndexType(),
         )
         result.append(dynamic_step)
+        if max_value == 0:
+            # everything is dynamic: the most right stride gets a step of one element
+            dynamic_step = ConstantOp.from_int_and_width(el_bytes, IndexType())
+            result.append(dynamic_step)
 
         # assign strides right to left
         for dim in reversed(range(tsl.dimension())):
